@@ -101,6 +101,20 @@ type FnGen struct {
 	ghostLocals map[string]Val
 	qfacts      []QFact
 	autoInvs    map[*ssa.BasicBlock][]autoInv
+
+	parent      *FnGen // non-nil while symbolically executing an inlined callee
+	labelPrefix string
+	entryGuard  string
+	depth       int
+	inlined     map[string]bool
+}
+
+func (g *FnGen) root() *FnGen {
+	r := g
+	for r.parent != nil {
+		r = r.parent
+	}
+	return r
 }
 
 func NewFnGen(P *Program, S *Specs, E *Effects, fn *ssa.Function) *FnGen {
@@ -109,13 +123,16 @@ func NewFnGen(P *Program, S *Specs, E *Effects, fn *ssa.Function) *FnGen {
 		blockGuard: map[*ssa.BasicBlock]string{}, exitState: map[*ssa.BasicBlock]State{},
 		edgeCond: map[[2]*ssa.BasicBlock]string{}, loops: map[*ssa.BasicBlock]*loopInfo{},
 		env: map[string]Val{}, siteNames: map[ssa.Instruction]string{}, callOrd: map[ssa.Instruction]int{},
-		assumptions: map[string]bool{}, usedExtern: map[string]bool{}, defaultPure: map[string]bool{}, autoInvs: map[*ssa.BasicBlock][]autoInv{}}
+		assumptions: map[string]bool{}, usedExtern: map[string]bool{}, defaultPure: map[string]bool{}, autoInvs: map[*ssa.BasicBlock][]autoInv{}, entryGuard: "true", inlined: map[string]bool{}}
 	g.C = S.Contracts[g.name]
 	g.D.ensureLive()
 	return g
 }
 
-func (g *FnGen) emitDef(text string) { g.items = append(g.items, Item{Kind: itDef, Text: text}) }
+func (g *FnGen) emitDef(text string) {
+	r := g.root()
+	r.items = append(r.items, Item{Kind: itDef, Text: text})
+}
 
 func (g *FnGen) def(prefix, sort, term string) string {
 	n := g.D.fresh(prefix)
@@ -133,7 +150,8 @@ func (g *FnGen) assume(guard, fact, origin string) {
 	if fact == "true" {
 		return
 	}
-	g.items = append(g.items, Item{Kind: itAssume, Guard: guard, Fact: fact, Origin: origin})
+	r := g.root()
+	r.items = append(r.items, Item{Kind: itAssume, Guard: guard, Fact: fact, Origin: origin})
 }
 
 var strongKinds = map[string]bool{
@@ -144,17 +162,19 @@ var strongKinds = map[string]bool{
 }
 
 func (g *FnGen) oblige(kind, label, guard, cond, desc string, pos token.Pos) *Obligation {
-	ob := &Obligation{Name: g.name + "/" + kind + "/" + label, Kind: kind, Fn: g.name, Desc: desc,
-		guard: guard, cond: cond, Strong: strongKinds[kind], item: len(g.items)}
-	if g.C != nil {
-		ob.Props = g.C.Props
+	r := g.root()
+	label = g.labelPrefix + label
+	ob := &Obligation{Name: r.name + "/" + kind + "/" + label, Kind: kind, Fn: r.name, Desc: desc,
+		guard: guard, cond: cond, Strong: strongKinds[kind], item: len(r.items)}
+	if r.C != nil {
+		ob.Props = r.C.Props
 	}
 	if pos.IsValid() {
 		p := g.P.Prog.Fset.Position(pos)
 		ob.Pos = fmt.Sprintf("%s:%d", strings.TrimPrefix(p.Filename, g.P.RepoDir+"/"), p.Line)
 	}
-	g.items = append(g.items, Item{Kind: itOblig, Guard: guard, Fact: cond, Ob: ob})
-	g.obs = append(g.obs, ob)
+	r.items = append(r.items, Item{Kind: itOblig, Guard: guard, Fact: cond, Ob: ob})
+	r.obs = append(r.obs, ob)
 	return ob
 }
 
